@@ -212,6 +212,23 @@ Definition exact_credentials (login pass auth : string) : bool :=
   | None => false
   end.
 
+(* the specification used by the observation oracle is lenient about the letter case of the scheme token
+   (RFC 7617: the scheme is case-insensitive; the code compares it exactly, which is the stricter choice) *)
+Definition lower (c : ascii) : ascii :=
+  let n := N_of_ascii c in if (65 <=? n)%N && (n <=? 90)%N then ascii_of_N (n + 32) else c.
+Fixpoint eqb_ci (a b : string) : bool :=
+  match a, b with
+  | EmptyString, EmptyString => true
+  | String x a', String y b' => Ascii.eqb (lower x) (lower y) && eqb_ci a' b'
+  | _, _ => false
+  end.
+Definition carries_credentials (login pass auth : string) : bool :=
+  match split_first " "%char auth with
+  | Some (scheme, rest) =>
+      eqb_ci scheme "Basic" && b64_decode_ok rest && String.eqb (b64_decode_prefix rest) (login ++ ":" ++ pass)
+  | None => false
+  end.
+
 (* what a client sends *)
 Definition basic_header (login pass : string) : string :=
   "Basic " ++ b64_encode (login ++ ":" ++ pass).
